@@ -89,10 +89,10 @@ var kinds = []kindT{
 		}, func(s string) any { return s }},
 }
 
-var positions = []string{"top", "nested", "doubly-nested"}
+var positions = []string{"top", "nested", "doubly-nested", "nested-acronyms(DB.URL)"}
 
 // envName: literal names, not computed by strutil
-var envNames = []string{"CFG_VAL", "CFG_SUB_VAL", "CFG_SUB_DEEP_VAL"}
+var envNames = []string{"CFG_VAL", "CFG_SUB_VAL", "CFG_SUB_DEEP_VAL", "CFG_DB_URL"}
 
 const otherEnv = "CFG_OTHER"
 
@@ -115,6 +115,12 @@ func buildType(k kindT, pos, syntax int, def string) reflect.Type {
 		sub := reflect.StructOf([]reflect.StructField{val})
 		return reflect.StructOf([]reflect.StructField{{Name: "Sub", Type: sub}, other})
 	}
+	if pos == 3 {
+		// names made of acronyms: the environment name must still be CFG_DB_URL
+		url := reflect.StructField{Name: "URL", Type: k.typ, Tag: tag(syntax, "val", def)}
+		db := reflect.StructOf([]reflect.StructField{url})
+		return reflect.StructOf([]reflect.StructField{{Name: "DB", Type: db}, other})
+	}
 	deep := reflect.StructOf([]reflect.StructField{val})
 	sub := reflect.StructOf([]reflect.StructField{{Name: "Deep", Type: deep}})
 	return reflect.StructOf([]reflect.StructField{other, {Name: "Sub", Type: sub}})
@@ -126,6 +132,8 @@ func fieldOf(v reflect.Value, pos int) reflect.Value {
 		return v.FieldByName("Val")
 	case 1:
 		return v.FieldByName("Sub").FieldByName("Val")
+	case 3:
+		return v.FieldByName("DB").FieldByName("URL")
 	}
 	return v.FieldByName("Sub").FieldByName("Deep").FieldByName("Val")
 }
@@ -138,6 +146,8 @@ func jsonDoc(pos int, val any, hasVal bool, other any, hasOther bool) []byte {
 			m["Val"] = val
 		case 1:
 			m["Sub"] = map[string]any{"Val": val}
+		case 3:
+			m["DB"] = map[string]any{"URL": val}
 		default:
 			m["Sub"] = map[string]any{"Deep": map[string]any{"Val": val}}
 		}
@@ -207,6 +217,7 @@ func runCase(k kindT, pos, syntax, defKind, subset, vset, carrier, spelling, oth
 	os.Unsetenv(envNames[0])
 	os.Unsetenv(envNames[1])
 	os.Unsetenv(envNames[2])
+	os.Unsetenv(envNames[3])
 	os.Unsetenv(otherEnv)
 	os.Unsetenv("CFG_CONFIG_B64")
 	if subset&2 != 0 {
@@ -225,7 +236,16 @@ func runCase(k kindT, pos, syntax, defKind, subset, vset, carrier, spelling, oth
 		argv = append(argv, "-other", "100")
 		otherWant = 100
 	}
-	if subset&4 != 0 || otherSubset&4 != 0 {
+	if carrier == 2 {
+		// both carriers: the file named by -config is THE configuration JSON, CFG_CONFIG_B64 must be
+		// ignored altogether (here it mentions both fields with decoy values)
+		doc := jsonDoc(pos, k.jsonV(jsonText), subset&4 != 0, 300, otherSubset&4 != 0)
+		p := filepath.Join(tmpDir, "cfg.json")
+		os.WriteFile(p, doc, 0o644)
+		argv = append([]string{"-config", p}, argv...)
+		decoy := jsonDoc(pos, k.jsonV(k.texts[0][3]), true, 999, true)
+		os.Setenv("CFG_CONFIG_B64", base64.StdEncoding.EncodeToString(decoy))
+	} else if subset&4 != 0 || otherSubset&4 != 0 {
 		doc := jsonDoc(pos, k.jsonV(jsonText), subset&4 != 0, 300, otherSubset&4 != 0)
 		if carrier == 0 {
 			p := filepath.Join(tmpDir, "cfg.json")
@@ -308,11 +328,11 @@ func main() {
 		st := &stats{Distinct: map[string]bool{}}
 		c := 0
 		for _, k := range kinds {
-			for pos := 0; pos < 3; pos++ {
+			for pos := 0; pos < 4; pos++ {
 				for syntax := 0; syntax < 2; syntax++ {
 					for subset := 0; subset < 16; subset++ {
 						for vset := 0; vset < 3; vset++ {
-							for carrier := 0; carrier < 2; carrier++ {
+							for carrier := 0; carrier < 3; carrier++ {
 								for spelling := 0; spelling < 3; spelling++ {
 									for _, os2 := range otherSubsets {
 										c++
@@ -355,7 +375,7 @@ func main() {
 	vcommon.WriteEvidence(&vcommon.Evidence{PropertyID: "C09", Level: "exploration", Violations: n,
 		Coverage: map[string]any{
 			"evaluations": total.Evals, "distinct_nontrivial": len(total.Distinct),
-			"rule":       "struct types generated with reflect.StructOf: 9 kinds x 3 nesting positions x 2 tag syntaxes x all 16 subsets of {cli, env, JSON, tag default} mentioning the field x 3 value sets (ordinary / extreme / empty text for cli and env) x 2 JSON carriers (-config file, CFG_CONFIG_B64) x 3 cli spellings x the second field's own source subsets; after Parse the field must equal the strconv-parsed value of the highest-priority mentioning source; distinct_nontrivial = distinct (kind, subsets, resulting value)",
+			"rule":       "struct types generated with reflect.StructOf: 9 kinds x 4 nesting positions (incl. acronym names DB.URL -> CFG_DB_URL) x 2 tag syntaxes x all 16 subsets of {cli, env, JSON, tag default} mentioning the field x 3 value sets (ordinary / extreme / empty text for cli and env) x 3 JSON carrier modes (-config file, CFG_CONFIG_B64, both present: the file wins and the variable is ignored) x 3 cli spellings x the second field's own source subsets; after Parse the field must equal the strconv-parsed value of the highest-priority mentioning source; distinct_nontrivial = distinct (kind, subsets, resulting value)",
 			"exhaustive": true, "second_field_subsets": otherSubsets,
 			"samples": []any{"kind=duration position=doubly-nested tag-syntax=1 sources=0110 (env, json) value-set=1 carrier=CFG_CONFIG_B64 -> -1ns from CFG_SUB_DEEP_VAL", "kind=bytes position=top sources=1001 value-set=2 (empty cli text) -> nil"},
 		},
